@@ -4,6 +4,7 @@ import (
 	"context"
 	"database/sql"
 	"fmt"
+	"math"
 	"math/big"
 	"sync"
 	"time"
@@ -229,15 +230,31 @@ func (rd *ReorgDetector) detectReorgInTrackedList(ctx context.Context) error {
 				}
 				rd.log.Warnf("Reorg detected %s for subscriber %s between blocks %d and %d. currentHash: %s trackHash: %s",
 					rd.network, event.SubscriberID, event.FromBlock, event.ToBlock, event.CurrentHash, event.TrackedHash)
-				// Notify the subscriber about the reorg
-				rd.notifySubscriber(id, hdr)
+				// Notify the subscriber about the reorg. Once it has acknowledged the reorg, the subscriber starts tracking
+				// the blocks of the new fork, which must not be removed along with the reorged ones: the reorged block and
+				// all the following blocks are removed from memory while the subscriber handles the reorg, and the rows
+				// to remove from DB (only after the subscriber has processed the reorg) are bounded by rowid
+				var lastRowID int64 = math.MaxInt64
+				notified := rd.notifySubscriber(id, hdr, func() {
+					hdrs.removeRange(event.FromBlock, event.ToBlock)
+					rowID, err := rd.getLastTrackedBlockRowID(event.SubscriberID, event.FromBlock, event.ToBlock)
+					if err != nil {
+						rd.log.Errorf("error getting the last tracked block row for subscriber %s between blocks %d and %d: %v",
+							event.SubscriberID, event.FromBlock, event.ToBlock, err)
+						return
+					}
+					lastRowID = rowID
+				})
 				// Remove the reorged block and all the following blocks from DB
-				if err := rd.removeTrackedBlockRange(event.SubscriberID, event.FromBlock, event.ToBlock); err != nil {
+				if err := rd.removeTrackedBlockRangeUpToRowID(
+					event.SubscriberID, event.FromBlock, event.ToBlock, lastRowID); err != nil {
 					return fmt.Errorf("error removing blocks from DB for subscriber %s between blocks %d and %d: %w",
 						event.SubscriberID, event.FromBlock, event.ToBlock, err)
 				}
-				// Remove the reorged block and all the following blocks from memory
-				hdrs.removeRange(event.FromBlock, event.ToBlock)
+				if !notified {
+					// Remove the reorged block and all the following blocks from memory
+					hdrs.removeRange(event.FromBlock, event.ToBlock)
+				}
 
 				break
 			}
